@@ -115,6 +115,12 @@ MandHeader(grp) ==
 RefIdx(frm) == IF \E i \in 1..Len(frm) : Filled(frm[i])
                  THEN CHOOSE i \in 1..Len(frm) : Filled(frm[i]) /\ \A j \in 1..(i - 1) : ~Filled(frm[j]) ELSE 1
 
+HasTV(grp, gn, pn, t) == HasParam(grp, gn, pn) /\ GetParam(grp, gn, pn).t = t
+MandHeaderTyped(grp) ==
+  /\ HasTV(grp, sPOINT, sUSED, TINT) /\ HasTV(grp, sPOINT, sFRAMES, TINT) /\ HasTV(grp, sPOINT, sRATE, TFLOAT)
+  /\ GroupIdx(grp, sANALOG) # 0
+  /\ (~AnalogGroupEmpty(grp) => HasTV(grp, sANALOG, sUSED, TINT) /\ HasTV(grp, sANALOG, sRATE, TFLOAT))
+
 (* ---------- updateHeader (src/ezc3d.cpp:405-444): parameters win over the header ---------- *)
 \* hasData = FALSE while a file is being loaded (the data section is read after the header is reconciled)
 UpdateHeader(h, grp, frm, hasData) ==
